@@ -15,6 +15,10 @@
 //                       class = all callback messages of all calls concatenated + final result code; indices/calls in
 //                       base 36; flag = 1 if a not-ready answer was given to a call made by rule evaluation
 #include "scan_common.h"
+#include <signal.h>
+// a case that does not finish is reported with its id instead of stalling the whole run
+static char vf_current[128];
+static void vf_alarm(int sig) { (void) sig; fprintf(stderr, "CASE-HANGS %s (no result after 300 s)\n", vf_current); _exit(97); }
 
 typedef struct { ITCTX ic; YR_MEMORY_BLOCK_ITERATOR it; CBCTX t; } RUN;
 
@@ -215,6 +219,8 @@ int main()
   {
     int n = split(line, toks, 64);
     if (n < 1) continue;
+    snprintf(vf_current, sizeof vf_current, "%s", toks[0]);
+    signal(SIGALRM, vf_alarm); alarm(300);
     const char* rs = field(toks, n, "rs"); const char* inf = field(toks, n, "in");
     if (!rs || !inf) DIE("missing field in case %s", toks[0]);
     int flags = atoi(field(toks, n, "fl") ? field(toks, n, "fl") : "0");
